@@ -27,18 +27,19 @@ func checkParallelLists(r *Run, wp *packages.Package) {
 				continue
 			}
 			ast.Inspect(fd.Body, func(x ast.Node) bool {
-				rs, ok := x.(*ast.RangeStmt)
-				if !ok || rs.Key == nil {
+				loop, ok := x.(ast.Stmt)
+				if !ok {
 					return true
 				}
-				key, ok := rs.Key.(*ast.Ident)
-				if !ok || key.Name == "_" {
+				it := fullIterationIn(info, fd.Body, loop)
+				if it == nil || it.idx == nil {
 					return true
 				}
-				keyObj := info.Defs[key]
-				ranged := exprString(r.Fset, rs.X)
+				rs := loop
+				keyObj := it.idx
+				ranged := exprString(r.Fset, it.Coll)
 				others := map[string]bool{}
-				ast.Inspect(rs.Body, func(y ast.Node) bool {
+				ast.Inspect(it.Body, func(y ast.Node) bool {
 					ix, ok := y.(*ast.IndexExpr)
 					if !ok {
 						return true
@@ -69,6 +70,7 @@ func checkParallelLists(r *Run, wp *packages.Package) {
 								return true
 							}
 							lenOf := func(e ast.Expr) string {
+								e = resolveLocalCopy(info, fd.Body, e)
 								if call, ok := ast.Unparen(e).(*ast.CallExpr); ok && len(call.Args) == 1 {
 									if id, ok := call.Fun.(*ast.Ident); ok && id.Name == "len" {
 										return exprString(r.Fset, call.Args[0])
